@@ -90,6 +90,8 @@ class H(BaseHTTPRequestHandler):
             self._log(path=u.path, range=rh, status=416, nranges=0, bytes=0)
             return
         if not ranges or len(ranges) > maxr:
+            # log BEFORE answering: a client must not be able to finish before its request is on record
+            self._log(path=u.path, range=rh, status=200, nranges=len(ranges or []), bytes=len(data))
             self.send_response(200)
             self.send_header("Content-Length", str(len(data)))
             self.send_header("Content-Type", "application/octet-stream")
@@ -98,8 +100,8 @@ class H(BaseHTTPRequestHandler):
                 self.wfile.write(data)
             except (BrokenPipeError, ConnectionResetError):
                 pass
-            self._log(path=u.path, range=rh, status=200, nranges=len(ranges or []), bytes=len(data))
             return
+        self._log(path=u.path, range=rh, status=206, nranges=len(ranges), bytes=sum(b - a + 1 for a, b in ranges), ranges=ranges)
         if len(ranges) == 1:
             a, b = ranges[0]
             body = data[a:b + 1]
@@ -123,7 +125,6 @@ class H(BaseHTTPRequestHandler):
             self.wfile.write(bytes(body))
         except (BrokenPipeError, ConnectionResetError):
             pass
-        self._log(path=u.path, range=rh, status=206, nranges=len(ranges), bytes=sum(b - a + 1 for a, b in ranges), ranges=ranges)
 
 
 class S(socketserver.ThreadingMixIn, socketserver.TCPServer):
